@@ -1295,6 +1295,228 @@ theorem manifest_want_ascii (s : Bytes) (h : isFQN (parseN s) = true) :
   · exact hs
   · exact d c hc
 
+/-! ## 9i. histories on one DiskCache over a shared manifests directory (foreign writers) -/
+
+/-- `manifestPath` is `manifestRel` under the cache directory -/
+theorem manifestPath_eq_rel (dir : Bytes) (links : List Bytes) (s : Bytes) :
+    manifestPath dir links s = (manifestRel links s).map (fun r => pathJoin [dir, r]) := by
+  unfold manifestPath manifestRel
+  cases nameToPath s with
+  | none => rfl
+  | some np =>
+    simp only
+    cases links.find? (equalFold (pathJoin [sManifests, np])) <;> rfl
+
+/-- **No state between calls.**  Running a history and then one more operation is one `stepH` on the directory
+    contents the history left behind: the result of every call is a function of the CURRENT directory contents
+    (and the operation) only — nothing is carried in the `DiskCache` from earlier calls. -/
+theorem runH_append (disk : List Bytes) (h : List HOp) (op : HOp) :
+    runH disk (h ++ [op]) = ((stepH (runH disk h).1 op).1, (runH disk h).2 ++ [(stepH (runH disk h).1 op).2]) := by
+  induction h generalizing disk with
+  | nil => simp [runH]
+  | cons o os ih =>
+    simp only [List.cons_append, runH]
+    rw [ih]
+
+/-- no two manifests on disk differ only by (ASCII) letter case -/
+def NoTwins (disk : List Bytes) : Prop :=
+  ∀ x ∈ disk, ∀ y ∈ disk, x.map toLowerB = y.map toLowerB → x = y
+
+theorem mem_insertLink (l : Bytes) (disk : List Bytes) (y : Bytes) (h : y ∈ insertLink l disk) :
+    y = l ∨ y ∈ disk := by
+  induction disk with
+  | nil => simp [insertLink] at h; exact Or.inl h
+  | cons x xs ih =>
+    simp only [insertLink] at h
+    split at h
+    · exact Or.inr h
+    · split at h
+      · rcases List.mem_cons.mp h with rfl | h
+        · exact Or.inl rfl
+        · exact Or.inr h
+      · rcases List.mem_cons.mp h with rfl | h
+        · exact Or.inr List.mem_cons_self
+        · rcases ih h with e | m
+          · exact Or.inl e
+          · exact Or.inr (List.mem_cons_of_mem _ m)
+
+theorem mem_removeLink (l : Bytes) (disk : List Bytes) (y : Bytes) (h : y ∈ removeLink l disk) : y ∈ disk := by
+  simp only [removeLink, List.mem_filter] at h; exact h.1
+
+theorem toLowerB_fin : ∀ n : Fin 256, (n.val < 128 → (toLowerB (UInt8.ofNat n.val)).toNat < 128) ∧
+    (128 ≤ n.val → toLowerB (UInt8.ofNat n.val) = UInt8.ofNat n.val) := by decide +kernel
+
+theorem toLowerB_lt (c : UInt8) (h : c.toNat < 128) : (toLowerB c).toNat < 128 := by
+  have := (toLowerB_fin ⟨c.toNat, c.toNat_lt⟩).1 h
+  simpa using this
+
+theorem toLowerB_ge (c : UInt8) (h : 128 ≤ c.toNat) : toLowerB c = c := by
+  have := (toLowerB_fin ⟨c.toNat, c.toNat_lt⟩).2 h
+  simpa using this
+
+/-- a string that is equal to the ASCII string `w` up to case is matched by `EqualFold(w, ·)` -/
+theorem equalFold_of_lowerEq (w y : Bytes) (hw : ∀ c ∈ w, c.toNat < 128)
+    (h : w.map toLowerB = y.map toLowerB) : equalFold w y = true := by
+  unfold equalFold
+  induction w generalizing y with
+  | nil =>
+    cases y with
+    | nil => rfl
+    | cons b ys => simp at h
+  | cons c cs ih =>
+    cases y with
+    | nil => simp at h
+    | cons b ys =>
+      simp only [List.map_cons, List.cons.injEq] at h
+      have hc := hw c List.mem_cons_self
+      have hb : b.toNat < 128 := by
+        by_cases hb : b.toNat < 128
+        · exact hb
+        · exfalso
+          have := toLowerB_ge b (by omega)
+          have hl := toLowerB_lt c hc
+          rw [h.1, this] at hl
+          omega
+      have hb' : b < 128 := by
+        rw [UInt8.lt_iff_toNat_lt]; simpa using hb
+      simp only [List.map_cons, foldMatch, hb', if_true, h.1, beq_self_eq_true, Bool.true_and]
+      exact ih ys (fun c' hc' => hw c' (List.mem_cons_of_mem _ hc')) h.2
+
+/-- what `manifestRel` returns when no existing link matches is pure ASCII -/
+theorem manifestRel_cases (disk : List Bytes) (s : Bytes) :
+    manifestRel disk s = none ∨
+    (∃ l ∈ disk, manifestRel disk s = some l) ∨
+    (∃ w, manifestRel disk s = some w ∧ (∀ c ∈ w, c.toNat < 128) ∧ ∀ l ∈ disk, equalFold w l = false) := by
+  rcases nameToPath_shape s with h | ⟨hfq, hp, hsafe⟩
+  · left; simp [manifestRel, h]
+  · right
+    have hwant := pathJoin_manifests _ (by simp) hsafe
+    simp only [manifestRel, hp, hwant]
+    cases hfind : disk.find? (equalFold (joinWith cSlash
+        [sManifests, (parseN s).host, (parseN s).ns, (parseN s).model, (parseN s).tag])) with
+    | some l => left; exact ⟨l, List.mem_of_find?_eq_some hfind, rfl⟩
+    | none =>
+      right
+      refine ⟨_, rfl, manifest_want_ascii s hfq, ?_⟩
+      intro l hl
+      have := List.find?_eq_none.mp hfind l hl
+      simpa using this
+
+/-- **Cache operations never create a case twin.**  If no two manifests on disk differ only by case, then after
+    `Resolve`, `Link` or `Unlink` of ANY name string none do (`Link` writes to the existing spelling when one
+    exists; it creates a new path only when no link equals it under case folding). -/
+theorem stepH_cache_noTwins (disk : List Bytes) (h : NoTwins disk) (n : Bytes) :
+    NoTwins (stepH disk (.resolve n)).1 ∧ NoTwins (stepH disk (.link n)).1 ∧ NoTwins (stepH disk (.unlink n)).1 := by
+  refine ⟨h, ?_, ?_⟩
+  · simp only [stepH]
+    rcases manifestRel_cases disk n with h0 | ⟨l, hl, h1⟩ | ⟨w, h1, hascii, hno⟩
+    · rw [h0]; exact h
+    · rw [h1]
+      intro x hx y hy
+      have hx' : x ∈ disk := by rcases mem_insertLink _ _ _ hx with rfl | m; exact hl; exact m
+      have hy' : y ∈ disk := by rcases mem_insertLink _ _ _ hy with rfl | m; exact hl; exact m
+      exact h x hx' y hy'
+    · rw [h1]
+      intro x hx y hy hxy
+      rcases mem_insertLink _ _ _ hx with rfl | mx <;> rcases mem_insertLink _ _ _ hy with rfl | my
+      · rfl
+      · have := equalFold_of_lowerEq _ y hascii hxy
+        rw [hno y my] at this; cases this
+      · have := equalFold_of_lowerEq _ x hascii hxy.symm
+        rw [hno x mx] at this; cases this
+      · exact h x mx y my hxy
+  · simp only [stepH]
+    cases manifestRel disk n with
+    | none => exact h
+    | some r =>
+      intro x hx y hy
+      exact h x (mem_removeLink _ _ _ hx) y (mem_removeLink _ _ _ hy)
+
+def HOp.isCache : HOp → Bool
+  | .resolve _ | .link _ | .unlink _ => true
+  | .fwrite _ | .fremove _ => false
+
+/-- foreign removals cannot create twins either; only a foreign WRITE can -/
+theorem stepH_noTwins (disk : List Bytes) (h : NoTwins disk) (op : HOp)
+    (hop : ∀ rel, op ≠ .fwrite rel) : NoTwins (stepH disk op).1 := by
+  cases op with
+  | resolve n => exact (stepH_cache_noTwins disk h n).1
+  | link n => exact (stepH_cache_noTwins disk h n).2.1
+  | unlink n => exact (stepH_cache_noTwins disk h n).2.2
+  | fwrite rel => exact absurd rfl (hop rel)
+  | fremove rel =>
+    intro x hx y hy
+    exact h x (mem_removeLink _ _ _ hx) y (mem_removeLink _ _ _ hy)
+
+/-- **After any history without a foreign write, no two manifest paths differ only by case** (from a twin-free
+    directory, e.g. the empty one). -/
+theorem runH_noTwins (disk : List Bytes) (h : NoTwins disk) (ops : List HOp)
+    (hops : ∀ op ∈ ops, ∀ rel, op ≠ .fwrite rel) : NoTwins (runH disk ops).1 := by
+  induction ops generalizing disk with
+  | nil => exact h
+  | cons op rest ih =>
+    simp only [runH]
+    exact ih _ (stepH_noTwins disk h op (hops op List.mem_cons_self))
+      (fun o ho => hops o (List.mem_cons_of_mem _ ho))
+
+/-- **Every spelling resolves to the same file**, whatever the directory contains (twins made by foreign writers
+    included: the first in glob order wins for all spellings): two accepted names equal up to case select the
+    same existing link, or both select none. -/
+theorem manifestRel_fold (disk : List Bytes) (s1 s2 : Bytes)
+    (h1 : nameToPath s1 ≠ none) (h2 : nameToPath s2 ≠ none) (hf : foldEqName (parseN s1) (parseN s2)) :
+    (∀ l ∈ disk, manifestRel disk s1 = some l → manifestRel disk s2 = some l) ∧
+    ((∀ l ∈ disk, manifestRel disk s1 ≠ some l) → ∀ l ∈ disk, manifestRel disk s2 ≠ some l) := by
+  have key := fold_same_path [] disk s1 s2 h1 h2 hf
+  simp only at key
+  obtain ⟨hfind, _, _⟩ := key
+  rcases nameToPath_shape s1 with h | ⟨_, hp1, hs1⟩
+  · exact absurd h h1
+  rcases nameToPath_shape s2 with h | ⟨_, hp2, hs2⟩
+  · exact absurd h h2
+  have e1 : manifestRel disk s1 = match disk.find? (equalFold (pathJoin [sManifests, joinWith cSlash
+      [(parseN s1).host, (parseN s1).ns, (parseN s1).model, (parseN s1).tag]])) with
+      | some l => some l
+      | none => some (pathJoin [sManifests, joinWith cSlash
+          [(parseN s1).host, (parseN s1).ns, (parseN s1).model, (parseN s1).tag]]) := by
+    simp only [manifestRel, hp1]; rfl
+  have e2 : manifestRel disk s2 = match disk.find? (equalFold (pathJoin [sManifests, joinWith cSlash
+      [(parseN s2).host, (parseN s2).ns, (parseN s2).model, (parseN s2).tag]])) with
+      | some l => some l
+      | none => some (pathJoin [sManifests, joinWith cSlash
+          [(parseN s2).host, (parseN s2).ns, (parseN s2).model, (parseN s2).tag]]) := by
+    simp only [manifestRel, hp2]; rfl
+  rw [e1, e2, ← hfind]
+  cases hq : disk.find? (equalFold (pathJoin [sManifests, joinWith cSlash
+      [(parseN s1).host, (parseN s1).ns, (parseN s1).model, (parseN s1).tag]])) with
+  | some l0 =>
+    simp only
+    exact ⟨fun l _ h => h, fun hno => absurd rfl (hno l0 (List.mem_of_find?_eq_some hq))⟩
+  | none =>
+    simp only
+    have hn1 := List.find?_eq_none.mp hq
+    have hn2 := List.find?_eq_none.mp (hfind ▸ hq)
+    have w1 := pathJoin_manifests _ (by simp) hs1
+    have w2 := pathJoin_manifests _ (by simp) hs2
+    have a1 := manifest_want_ascii s1 (by rcases nameToPath_shape s1 with h | ⟨hfq, _, _⟩; exact absurd h h1; exact hfq)
+    have a2 := manifest_want_ascii s2 (by rcases nameToPath_shape s2 with h | ⟨hfq, _, _⟩; exact absurd h h2; exact hfq)
+    constructor
+    · intro l hl hsome
+      exfalso
+      have : pathJoin [sManifests, joinWith cSlash
+          [(parseN s1).host, (parseN s1).ns, (parseN s1).model, (parseN s1).tag]] = l := Option.some.inj hsome
+      have hm := hn1 l hl
+      rw [this] at hm
+      rw [← this, w1] at hl
+      have := equalFold_of_lowerEq l l (by rw [← this, w1]; exact a1) rfl
+      simp [this] at hm
+    · intro _ l hl hsome
+      have : pathJoin [sManifests, joinWith cSlash
+          [(parseN s2).host, (parseN s2).ns, (parseN s2).model, (parseN s2).tag]] = l := Option.some.inj hsome
+      have hm := hn2 l hl
+      rw [this] at hm
+      have := equalFold_of_lowerEq l l (by rw [← this, w2]; exact a2) rfl
+      simp [this] at hm
+
 /-! ## 10. non-vacuity -/
 
 /-- the hypotheses of the theorems above are met by non-trivial concrete values: a fully qualified name with a
@@ -1313,5 +1535,16 @@ example : ([[111], [109]] : List Bytes) ≠ [] ∧ ∀ c ∈ ([[111], [109]] : L
   intro c hc
   simp only [List.mem_cons, List.not_mem_nil, or_false] at hc
   rcases hc with rfl | rfl <;> exact ⟨by decide, by decide, by decide, by decide, by decide⟩
+
+/-- a concrete history (the shape of seeded change C13-F): lookup, FOREIGN write of `h/n/Phi/t`, then `h/n/phi:t`
+    resolves to the foreign file, `Link` under `h/n/PHI:t` goes to that same file and creates no twin -/
+example :
+    let phiRel : Bytes := [109, 97, 110, 105, 102, 101, 115, 116, 115, 47, 104, 47, 110, 47, 80, 104, 105, 47, 116]
+    let lower : Bytes := [104, 47, 110, 47, 112, 104, 105, 58, 116]
+    let upper : Bytes := [104, 47, 110, 47, 80, 72, 73, 58, 116]
+    runH [] [.resolve lower, .fwrite phiRel, .resolve lower, .link upper, .resolve lower]
+      = ([phiRel], [some ⟨some [109, 97, 110, 105, 102, 101, 115, 116, 115, 47, 104, 47, 110, 47, 112, 104, 105, 47, 116], false⟩,
+          none, some ⟨some phiRel, true⟩, some ⟨some phiRel, true⟩, some ⟨some phiRel, true⟩]) := by
+  decide
 
 end OllamaVerif.C13
